@@ -615,7 +615,7 @@ theorem range_split {T a : Nat} {l₁ l₂ : List Nat} (h : List.range T = l₁ 
   refine ⟨ha, ha ▸ hlen, ?_⟩
   intro b hb
   have hb' : b < l₁.length := ha ▸ hb
-  have h1 : (List.range T)[b]? = some b := by simp; omega
+  have h1 : (List.range T)[b]? = some b := List.getElem?_range (by omega)
   rw [h, List.getElem?_append_left hb'] at h1
   exact List.mem_of_getElem? h1
 
@@ -674,9 +674,165 @@ theorem positions_head {c : Ctx N} {i : Nat} {x : Nat × UnitM N × Stall} (h : 
   have := hpre t' (hmem t' ht')
   exact List.head?_eq_none_iff.1 this
 
+omit [DecidableEq N] in
+theorem length_filter_range_lt (n k : Nat) :
+    ((List.range n).filter (fun i => decide (i < k))).length = min k n := by
+  induction n with
+  | zero => simp
+  | succ n ih =>
+    rw [List.range_succ, List.filter_append, List.length_append, ih]
+    by_cases h : n < k
+    · simp [h]; omega
+    · simp [h]; omega
+
+section diagReading
+variable [LT N] [DecidableRel (α := N) (· < ·)]
+variable {p : Proc N} {prog : List (Instr N)} {tbl : List (Util N)} {E : Nat → Nat}
+
+theorem DiagFacts.mono (hD : DiagFacts p prog tbl E) : ∀ a b, a ≤ b → b ≤ tbl.length → E a ≤ E b := by
+  intro a b hab
+  induction b with
+  | zero => intro _; have : a = 0 := by omega
+            subst this; exact Nat.le_refl _
+  | succ b ih =>
+    intro hb
+    by_cases h : a = b + 1
+    · subst h; exact Nat.le_refl _
+    · exact Nat.le_trans (ih (by omega) (by omega)) (hD.2 b (by omega)).ge
+
+theorem DiagFacts.find (hD : DiagFacts p prog tbl E) :
+    ∀ m, m ≤ tbl.length → ∀ i, i < E m → ∃ t, t < m ∧ E t ≤ i ∧ i < E (t + 1) := by
+  intro m
+  induction m with
+  | zero => intro _ i hi; rw [hD.1] at hi; omega
+  | succ m ih =>
+    intro hm i hi
+    by_cases h : i < E m
+    · obtain ⟨t, ht, h1, h2⟩ := ih (by omega) i h
+      exact ⟨t, by omega, h1, h2⟩
+    · exact ⟨m, by omega, by omega, hi⟩
+
+theorem DiagFacts.hosted_lt (hD : DiagFacts p prog tbl E) {t : Nat} (ht : t < tbl.length) {n : N} {k : Nat}
+    (hk : k ∈ unitIdx (tbl.getD t ([] : List (N × List HI))) n) : k < E (t + 1) := by
+  obtain ⟨x, hx, e⟩ := List.mem_map.1 hk
+  rw [← e]; exact (hD.2 t ht).newBase.idx_lt n x hx
+
+theorem DiagFacts.old_lt (hD : DiagFacts p prog tbl E) {t : Nat} (ht : t < tbl.length) {n : N} {k : Nat}
+    (hk : k ∈ unitIdx (prevRow tbl t) n) : k < E t := by
+  obtain ⟨x, hx, e⟩ := List.mem_map.1 hk
+  rw [← e]; exact (hD.2 t ht).oldBase.idx_lt n x hx
+
+/-- an instruction that is not issued in or before cycle `t` is not hosted in cycle `t` -/
+theorem DiagFacts.posChunk_nil (hD : DiagFacts p prog tbl E) (stalled : Bool) {t i : Nat} (ht : t < tbl.length)
+    (hi : E (t + 1) ≤ i) : posChunk (ctx p prog tbl stalled) i t = [] := by
+  apply posChunk_eq_nil
+  intro u _ hmem
+  have := hD.hosted_lt ht hmem
+  omega
+
+/-- **the first position of an instruction issued in cycle `t`** is `(t, port, _)` where `port` is the first usable
+input port at its turn -/
+theorem DiagFacts.head_of_issued (hD : DiagFacts p prog tbl E) (hn : (p.allUnits.map (·.name)).Nodup)
+    (stalled : Bool) {t i : Nat} (ht : t < tbl.length) (h0 : E t ≤ i) (h1 : i < E (t + 1)) :
+    ∃ pre port post st, sortedInputs p = pre ++ port :: post ∧
+      ((ctx p prog tbl stalled).positions i).head? = some (t, port, st) ∧
+      usableP prog p.allUnits (prevRow tbl t) (tbl.getD t ([] : List (N × List HI))) i port ∧
+      ∀ q ∈ pre, ¬ usableP prog p.allUnits (prevRow tbl t) (tbl.getD t ([] : List (N × List HI))) i q := by
+  obtain ⟨pre, port, post, hs, hi, hu, hpre⟩ := (hD.2 t ht).turns i h0 h1
+  have hport : port ∈ p.allUnits := mem_allUnits_of_mem_inBoundary (mem_sortedInputs.1 (by rw [hs]; simp))
+  obtain ⟨y, hy, hyi⟩ := List.mem_map.1 hi
+  have hchunk : (t, port, y.st) ∈ posChunk (ctx p prog tbl stalled) i t :=
+    mem_posChunk.2 ⟨rfl, hport, y, hy, hyi, rfl⟩
+  have hpos : (t, port, y.st) ∈ (ctx p prog tbl stalled).positions i := by
+    rw [positions_eq]
+    exact List.mem_flatMap.2 ⟨t, List.mem_range.2 ht, hchunk⟩
+  cases hh : ((ctx p prog tbl stalled).positions i).head? with
+  | none => rw [List.head?_eq_none_iff.1 hh] at hpos; cases hpos
+  | some x =>
+    obtain ⟨hxT, hx, hmin⟩ := positions_head hh
+    have hle : x.1 ≤ t := by
+      by_cases hlt : t < x.1
+      · rw [hmin t hlt] at hchunk; cases hchunk
+      · omega
+    obtain ⟨_, hxu, z, hz, hzi, hzs⟩ := mem_posChunk.1 hx
+    have hzmem : i ∈ unitIdx (tbl.getD x.1 ([] : List (N × List HI))) x.2.1.name := List.mem_map.2 ⟨z, hz, hzi⟩
+    have hge : t ≤ x.1 := by
+      by_cases hlt : x.1 < t
+      · have h2 := hD.hosted_lt hxT hzmem
+        have h3 := hD.mono (x.1 + 1) t (by omega) (by omega)
+        omega
+      · omega
+    have hxt : x.1 = t := by omega
+    obtain ⟨a, b, st⟩ := x
+    simp only at hxt hzmem hxu
+    subst hxt
+    have hname : b.name = port.name := (hD.2 a ht).newND.unique_host _ _ i hzmem hi
+    have : b = port := unit_eq_of_name_eq hn hxu hport hname
+    subst this
+    exact ⟨pre, b, post, st, hs, rfl, hu, hpre⟩
+
+theorem DiagFacts.positions_nil (hD : DiagFacts p prog tbl E) (stalled : Bool) {i : Nat} (hi : E tbl.length ≤ i) :
+    (ctx p prog tbl stalled).positions i = [] := by
+  rw [positions_eq, List.flatMap_eq_nil_iff]
+  intro t ht
+  have ht' : t < tbl.length := List.mem_range.1 ht
+  exact hD.posChunk_nil stalled ht' (Nat.le_trans (hD.mono (t + 1) tbl.length (by omega) (Nat.le_refl _)) hi)
+
+theorem DiagFacts.firstCycle_eq (hD : DiagFacts p prog tbl E) (hn : (p.allUnits.map (·.name)).Nodup)
+    (stalled : Bool) {t i : Nat} (ht : t < tbl.length) (h0 : E t ≤ i) (h1 : i < E (t + 1)) :
+    (ctx p prog tbl stalled).firstCycle i = some t := by
+  obtain ⟨pre, port, post, st, _, hh, _, _⟩ := hD.head_of_issued hn stalled ht h0 h1
+  simp [Ctx.firstCycle, hh]
+
+theorem DiagFacts.issued_eq (hD : DiagFacts p prog tbl E) (hn : (p.allUnits.map (·.name)).Nodup)
+    (stalled : Bool) (i : Nat) : (ctx p prog tbl stalled).issued i = decide (i < E tbl.length) := by
+  unfold Ctx.issued
+  by_cases hi : i < E tbl.length
+  · obtain ⟨t, ht, h0, h1⟩ := hD.find tbl.length (Nat.le_refl _) i hi
+    obtain ⟨pre, port, post, st, _, hh, _, _⟩ := hD.head_of_issued hn stalled ht h0 h1
+    have : (ctx p prog tbl stalled).positions i ≠ [] := by
+      intro e; rw [e] at hh; cases hh
+    simp [hi, this]
+  · rw [hD.positions_nil stalled (by omega)]
+    simp [hi]
+
+theorem DiagFacts.enteredCount_eq (hD : DiagFacts p prog tbl E) (hn : (p.allUnits.map (·.name)).Nodup)
+    (stalled : Bool) (hle : E tbl.length ≤ prog.length) :
+    (ctx p prog tbl stalled).enteredCount = E tbl.length := by
+  unfold Ctx.enteredCount
+  rw [List.filter_congr (q := fun i => decide (i < E tbl.length)) (fun i _ => hD.issued_eq hn stalled i),
+    length_filter_range_lt]
+  exact Nat.min_eq_left hle
+
+theorem DiagFacts.issuedBy_eq (hD : DiagFacts p prog tbl E) (hn : (p.allUnits.map (·.name)).Nodup)
+    (stalled : Bool) (hle : E tbl.length ≤ prog.length) {t : Nat} (ht : t < tbl.length) :
+    issuedBy (ctx p prog tbl stalled) t = E (t + 1) := by
+  unfold issuedBy
+  have hmono := hD.mono (t + 1) tbl.length (by omega) (Nat.le_refl _)
+  rw [List.filter_congr (q := fun i => decide (i < E (t + 1))), length_filter_range_lt]
+  · exact Nat.min_eq_left (Nat.le_trans hmono hle)
+  · intro i _
+    by_cases hi : i < E tbl.length
+    · obtain ⟨t', ht', h0, h1⟩ := hD.find tbl.length (Nat.le_refl _) i hi
+      rw [hD.firstCycle_eq hn stalled ht' h0 h1]
+      simp only
+      by_cases hlt : t' ≤ t
+      · have := hD.mono (t' + 1) (t + 1) (by omega) (by omega)
+        simp [hlt]; omega
+      · have := hD.mono (t + 1) t' (by omega) (by omega)
+        simp [hlt]; omega
+    · have : (ctx p prog tbl stalled).firstCycle i = none := by
+        simp [Ctx.firstCycle, hD.positions_nil stalled (i := i) (by omega)]
+      rw [this]
+      simp only
+      symm; simp; omega
+
+end diagReading
+
 end reading
 
 end ProcSim
+
 
 
 
